@@ -28,7 +28,7 @@ TRUSTED = ["python timeline monitor (props/C18.py) as the independent oracle on 
 GOSSIP_MS = 40
 GRACE_MS = 10000
 BOUND_MS = 30000
-RERUN_BOUND_MS = 12000   # confirmation / shrinking runs of a scenario that already failed once
+RERUN_BOUND_MS = 8000    # confirmation / shrinking runs of a scenario that already failed once
 DELAY_MS = 200
 
 
@@ -472,7 +472,7 @@ def run(ctx):
         small, so, sf = sc, again, f2
         if f2["sig"] != "panic" and len(seen) <= 2:
             try:
-                cand = shrink(binary, wd, sc, f2["sig"], budget=4)
+                cand = shrink(binary, wd, sc, f2["sig"], budget=3)
                 if cand is not sc:
                     co = run_scenarios(binary, wd, [cand], tag="shrunk")[0]
                     cf_ = monitor(cand, co)
